@@ -1,7 +1,7 @@
 (* C07 — O2Jam .ojn reading.  Property theorems only: each is closed by [exact] from Proofs/ or Base/
    (table obligations and concrete witnesses by vm_compute). *)
 From Coq Require Import ZArith QArith List Bool.
-From RV Require Import Base.PyNum Base.Bytes Formats.O2J Formats.O2JSpec Generated.Tables Proofs.O2JProofs.
+From RV Require Import Base.PyNum Base.Bytes Formats.O2J Formats.O2JSpec Generated.Tables Proofs.O2JProofs Proofs.O2JHeaderProofs.
 Import ListNotations.
 Open Scope Q_scope.
 
@@ -16,6 +16,16 @@ Theorem C07_channels_are_reference :
   = (ref_ch_tempo, ref_ch_col0, (ref_ch_col_last + 1)%Z, map (fun c => (ref_ch_col0 + c)%Z) columns,
      ref_kind_tap, ref_kind_head, ref_kind_tail).
 Proof. vm_compute. reflexivity. Qed.
+
+(* ---- ojn_header_decodes: for EVERY well-formed header (and whatever bytes follow it) read_meta, driven by
+   the live layout table, returns exactly the values the format lays down: field extraction = layout;
+   the laid-out header is 300 bytes ---- *)
+Theorem C07_ojn_header_decodes : forall h pc post, wf_hdr h = true -> ilist_ok 3 pc = true ->
+  read_meta (encode_header h pc ++ post) = denote_hdr h pc.
+Proof. exact (ojn_header_decodes C07_layout_is_reference). Qed.
+Theorem C07_header_is_300_bytes : forall h pc, wf_hdr h = true -> ilist_ok 3 pc = true ->
+  length (encode_header h pc) = 300%nat.
+Proof. exact encode_header_length. Qed.
 
 (* ---- bytes: struct "<i" / "<h" decoding inverts the encoding on the whole range ---- *)
 Theorem C07_le_int32_roundtrip : forall v, (- 2 ^ 31 <= v < 2 ^ 31)%Z -> le_int32 (enc_int32 v) = Some v.
